@@ -28,7 +28,7 @@ def main():
     env = dict(os.environ, VERIF_REPO=WT)
     bad = 0
     try:
-        for name in sorted(os.listdir(os.path.join(VERIF, "seeded"))):
+        for name in sorted(n for n in os.listdir(os.path.join(VERIF, "seeded")) if not n.startswith("_")):
             d = os.path.join(VERIF, "seeded", name)
             if want and name not in want:
                 continue
